@@ -76,6 +76,10 @@ type c13Op struct {
 	Fault string `json:"f,omitempty"`     // fault plan
 	Defer bool   `json:"defer,omitempty"` // leave the interrupted operation pending: the sweep runs at the next `sweep` op / at the end
 	Retry bool   `json:"retry,omitempty"` // after the operation was undone, repeat it without a fault: it must succeed
+	// The grace period (Rollback leaves alone what is younger than a minute):
+	Sweep string `json:"sweep,omitempty"` // unfaulted op: Rollback fires WHILE the operation is in flight, "pre" = after tx1 before the publish, "post" = after the publish before tx2
+	Young int    `json:"young,omitempty"` // seconds (<60): the pending rows are made this old and swept first; they must not be touched
+	Age   int    `json:"age,omitempty"`   // seconds (>60): age given to the pending rows for the sweep that must handle them (0 = an hour)
 }
 
 type c13Case struct {
@@ -113,7 +117,15 @@ func c13Gen(t *rapid.T) c13Case {
 				op.Fault = rapid.SampledFrom(faults).Draw(t, "fault")
 				op.Defer = op.Fault != "pub_fail" && rapid.IntRange(0, 99).Draw(t, "defer") < 35
 				op.Retry = rapid.Bool().Draw(t, "retry")
+				op.Young = rapid.SampledFrom([]int{0, 0, 1, 30, 59}).Draw(t, "young")
+				op.Age = rapid.SampledFrom([]int{0, 61, 62, 3600}).Draw(t, "age")
+			} else if i > 0 && rapid.IntRange(0, 99).Draw(t, "inflight") < 25 {
+				op.Sweep = rapid.SampledFrom([]string{"pre", "post"}).Draw(t, "sweepAt")
+				op.Young = rapid.SampledFrom([]int{0, 1, 30, 59}).Draw(t, "young")
 			}
+		} else if k == "sweep" {
+			op.Young = rapid.SampledFrom([]int{0, 1, 30, 59}).Draw(t, "young")
+			op.Age = rapid.SampledFrom([]int{0, 61, 62, 3600}).Draw(t, "age")
 		}
 		c.Ops = append(c.Ops, op)
 	}
@@ -138,6 +150,10 @@ func c13Enum(yield func(c13Case) bool) {
 				// prefix: subject subj-2 exists with one service; (fixed-name creates use subj-1, which is free)
 				prefix := []c13Op{{K: "create", Subj: 2}, {K: "svc_add", Subj: 0, Arg: 0}}
 				target := c13Op{K: kd.k, Subj: kd.subj, Arg: 1, Fault: f, Retry: f != ""}
+				if f != "" {
+					// grace period: a sweep over the rows at 59 s must not touch them, the one at 61 s must handle them
+					target.Young, target.Age = 59, 61
+				}
 				if kd.k == "svc_del" {
 					target.Arg = 0 // index 0 = the existing service (see c13SvcTarget); svc_upd with Arg 1: existing service -> T1
 				}
@@ -146,6 +162,22 @@ func c13Enum(yield func(c13Case) bool) {
 				a.Ops = append(a.Ops, target, c13Op{K: "svc_add", Subj: 0, Arg: 2}, c13Op{K: "vm_add", Subj: 0})
 				if !yield(a) {
 					return
+				}
+				if f == "" {
+					// the sweep fires while the (unfaulted) operation is in flight, before / after the publish, with the
+					// in-flight rows 1 s and 59 s old
+					for _, pos := range []string{"pre", "post"} {
+						for _, young := range []int{1, 59} {
+							tg := target
+							tg.Sweep, tg.Young = pos, young
+							g := c13Case{Methods: methods}
+							g.Ops = append(g.Ops, prefix...)
+							g.Ops = append(g.Ops, tg, c13Op{K: "svc_add", Subj: 0, Arg: 2})
+							if !yield(g) {
+								return
+							}
+						}
+					}
 				}
 				if f == "" || f == "pub_fail" {
 					continue
@@ -186,6 +218,8 @@ type c13Script struct {
 	published bool // a did:nuts transaction of the current operation reached the didstore
 	failTx2   bool // armed: every SQL delete fails
 	webOnly   bool
+	sweepAt   string           // "pre" | "post": call hook at that point of the deciding Commit
+	hook      func(pos string) // runs Rollback while the operation is in flight (no database transaction is open there)
 }
 
 func (s *c13Script) begin(plan string) {
@@ -197,7 +231,7 @@ func (s *c13Script) begin(plan string) {
 func (s *c13Script) end() (fired, published, reached bool) {
 	s.mu.Lock()
 	defer s.mu.Unlock()
-	s.plan, s.failTx2 = "", false
+	s.plan, s.failTx2, s.sweepAt = "", false, ""
 	return s.fired, s.published, s.reached
 }
 
@@ -222,6 +256,14 @@ func (m c13Method) IsCommitted(ctx context.Context, e orm.DIDChangeLog) (bool, e
 }
 func (m c13Method) Commit(ctx context.Context, e orm.DIDChangeLog) error {
 	s := m.s
+	if m.decider {
+		s.mu.Lock()
+		at, hook := s.sweepAt, s.hook
+		s.mu.Unlock()
+		if at == "pre" && hook != nil {
+			hook("pre")
+		}
+	}
 	if m.decider && s.webOnly {
 		s.mu.Lock()
 		// did:web is the only method: its documents are served from the database, so the change is public as soon as
@@ -239,6 +281,12 @@ func (m c13Method) Commit(ctx context.Context, e orm.DIDChangeLog) error {
 	}
 	err := m.inner.Commit(ctx, e)
 	if m.decider {
+		s.mu.Lock()
+		at, hook := s.sweepAt, s.hook
+		s.mu.Unlock()
+		if at == "post" && hook != nil && err == nil {
+			hook("post")
+		}
 		s.mu.Lock()
 		if s.plan == "tx2_fail" || s.plan == "pub_fail_tx2_fail" {
 			s.failTx2 = true
@@ -468,6 +516,8 @@ type c13Fix struct {
 	faultSeen   bool
 	laterOp     bool
 	lastReached bool
+	inflight    string // position of the in-flight sweep for the next invoke
+	inflightRan bool
 }
 
 func c13Setup(x *h.Ctx, c c13Case) *c13Fix {
@@ -853,6 +903,11 @@ func c13Contains(l []string, s string) bool {
 func (fx *c13Fix) invoke(p *c13Pending, plan string) (ret any, err error, stopped, fired, published bool) {
 	defer func() { p.reached = fx.lastReached }()
 	fx.script.begin(plan)
+	if fx.inflight != "" {
+		fx.script.mu.Lock()
+		fx.script.sweepAt = fx.inflight
+		fx.script.mu.Unlock()
+	}
 	func() {
 		defer func() {
 			if r := recover(); r != nil {
@@ -984,7 +1039,22 @@ func (fx *c13Fix) step(i int, op c13Op) {
 	}
 	p.preList = fx.list()
 	keysBefore := fx.keySet()
+	if op.Sweep != "" && op.Fault == "" && len(fx.pending) == 0 {
+		// the sweep fires while this operation is between tx1 and tx2 (the deciding Commit holds no database transaction)
+		x.Classf("inflight-sweep:%s:%ds", op.Sweep, op.Young)
+		fx.inflight = op.Sweep
+		fx.script.mu.Lock()
+		fx.script.hook = func(pos string) {
+			fx.inflightRan = true
+			fx.youngSweep(op.Young, "inflight-"+pos+":"+op.K, fmt.Sprintf("during op %d", i))
+		}
+		fx.script.mu.Unlock()
+	}
 	ret, err, stopped, fired, published := fx.invoke(p, op.Fault)
+	fx.inflight = ""
+	if fx.bad {
+		return
+	}
 	for k := range fx.keySet() {
 		if !keysBefore[k] {
 			p.newKids = append(p.newKids, k)
@@ -1016,7 +1086,7 @@ func (fx *c13Fix) step(i int, op c13Op) {
 			}
 			return
 		}
-		fx.sweepAged(fmt.Sprintf("after op %d", i))
+		fx.sweepAged(fmt.Sprintf("after op %d", i), op.Young, op.Age)
 		return
 	}
 	// Synchronous outcome. What the world must look like follows from whether the change reached the public (the network
@@ -1039,6 +1109,13 @@ func (fx *c13Fix) step(i int, op c13Op) {
 		return
 	}
 	fx.settle(p, true, ret, fmt.Sprintf("op %d succeeded", i))
+}
+
+func c13Clip(s string) string {
+	if len(s) > 300 {
+		return s[:300] + "…"
+	}
+	return s
 }
 
 func c13Short(err error) string {
@@ -1078,14 +1155,64 @@ func (fx *c13Fix) ageChangeLog() {
 	fx.x.NoErr(fx.db.Exec("UPDATE did_document_version SET updated_at = updated_at - 3600 WHERE id IN (SELECT did_document_version_id FROM did_change_log)").Error, "age rows")
 }
 
+// setPendingAge makes every version that still has a change-log row `seconds` old; returns the clock reading used.
+func (fx *c13Fix) setPendingAge(seconds int) int64 {
+	now := time.Now().Unix()
+	fx.x.NoErr(fx.db.Exec("UPDATE did_document_version SET updated_at = ? WHERE id IN (SELECT did_document_version_id FROM did_change_log)", now-int64(seconds)).Error, "set age of pending rows")
+	return now
+}
+
+// pendingRows lists what a sweep may touch: the change-log rows, the versions they point to, and the DIDs.
+func (fx *c13Fix) pendingRows() string {
+	var logIDs, verIDs, dids []string
+	fx.x.NoErr(fx.db.Raw("SELECT did_document_version_id FROM did_change_log ORDER BY 1").Scan(&logIDs).Error, "read change log")
+	fx.x.NoErr(fx.db.Raw("SELECT id FROM did_document_version ORDER BY 1").Scan(&verIDs).Error, "read versions")
+	fx.x.NoErr(fx.db.Raw("SELECT id FROM did ORDER BY 1").Scan(&dids).Error, "read dids")
+	return fmt.Sprintf("%d change-log rows %v | %d versions %v | %d DIDs", len(logIDs), logIDs, len(verIDs), verIDs, len(dids))
+}
+
+// youngSweep: the rows with a change-log entry are `young` (< 60) seconds old; Rollback must leave them alone
+// ("changes that are older than 1 minute"). young = 0 leaves the rows as they are (written this very moment).
+// The expectation is only asserted if the clock did not advance so far during the call that the rows could have
+// crossed the minute (post-hoc guard, so that a stalled process cannot cause a false alarm).
+func (fx *c13Fix) youngSweep(young int, what, when string) {
+	before := fx.pendingRows()
+	now := time.Now().Unix()
+	if young > 0 {
+		now = fx.setPendingAge(young)
+	}
+	fx.mgr.Rollback(fx.ctx)
+	if time.Now().Unix()-now > int64(60-young) {
+		fx.x.Class("young-sweep:inconclusive-clock-advanced")
+		return
+	}
+	if after := fx.pendingRows(); after != before {
+		// one root cause, one signature per situation (in-flight operation / pending rows); position and operation are in the text
+		fx.violate("grace-period:young-rows-touched:"+strings.SplitN(what, "-", 2)[0], "Rollback touched rows that are %d s old (documented: only changes older than 1 minute) [%s]: before {%s} after {%s} (%s)",
+			young, what, c13Clip(before), c13Clip(after), when)
+	}
+}
+
 // sweepAged = what the node does once the pending rows are older than a minute: Rollback(ctx).
-func (fx *c13Fix) sweepAged(when string) {
+func (fx *c13Fix) sweepAged(when string, young, age int) {
 	x := fx.x
 	if len(fx.pending) == 0 {
 		return
 	}
 	x.Class("sweep-with-pending")
-	fx.ageChangeLog()
+	if young > 0 {
+		// first a sweep that finds the rows younger than a minute: hands off
+		x.Classf("young-sweep:%ds", young)
+		fx.youngSweep(young, "pending", when)
+		if fx.bad {
+			return
+		}
+	}
+	if age <= 60 {
+		age = 3600
+	}
+	x.Classf("aged-sweep:%ds", age)
+	fx.setPendingAge(age)
 	_ = c13Log.take()
 	fx.mgr.Rollback(fx.ctx)
 	logged := c13Log.take()
@@ -1368,7 +1495,7 @@ func c13Run(x *h.Ctx, c c13Case) {
 			fx.restart()
 		case "sweep":
 			if len(fx.pending) > 0 {
-				fx.sweepAged(fmt.Sprintf("sweep op %d", i))
+				fx.sweepAged(fmt.Sprintf("sweep op %d", i), op.Young, op.Age)
 			} else {
 				// nothing pending: the sweep must not change anything
 				x.Class("op:sweep-idle")
@@ -1381,7 +1508,7 @@ func c13Run(x *h.Ctx, c c13Case) {
 		}
 	}
 	if !fx.bad && len(fx.pending) > 0 {
-		fx.sweepAged("final sweep")
+		fx.sweepAged("final sweep", 0, 0)
 	}
 	if !fx.bad {
 		fx.checkWorld("end")
@@ -1391,7 +1518,10 @@ func c13Run(x *h.Ctx, c c13Case) {
 		// that — surface it as a harness problem rather than guessing
 		x.Fatalf("ambassador refused a published document: %v", fx.net.deliverE)
 	}
-	if fx.faultSeen && fx.laterOp {
+	if fx.inflightRan {
+		x.Class("has-inflight-sweep")
+	}
+	if (fx.faultSeen && fx.laterOp) || fx.inflightRan {
 		x.NonTrivial()
 	}
 	if fx.faultSeen {
